@@ -46,6 +46,8 @@ Json::Value lookup(const char* kind, const std::string& id, const std::string& c
     e = &tbl[id + "@" + cg];
   } else if (tbl.isMember(id)) {
     e = &tbl[id];
+  } else if (tbl.isMember("*")) {
+    e = &tbl["*"];
   }
   if (!e) {
     return Json::Value();
